@@ -21,6 +21,7 @@ import (
 	"github.com/acquirecloud/golibs/kvs"
 	"github.com/acquirecloud/golibs/ulidutils"
 	"github.com/gobwas/glob"
+	"math"
 	"sync"
 	"time"
 )
@@ -185,7 +186,12 @@ func (s *service) WaitForVersionChange(ctx context.Context, key, ver string) err
 		var expired <-chan time.Time
 		var tmr *time.Timer
 		if r.ExpiresAt != nil {
-			tmr = time.NewTimer(time.Until(*r.ExpiresAt) + time.Millisecond)
+			d := time.Until(*r.ExpiresAt)
+			if d < math.MaxInt64-time.Millisecond {
+				// not for a far future expiration: the sum would overflow and fire the timer at once
+				d += time.Millisecond
+			}
+			tmr = time.NewTimer(d)
 			expired = tmr.C
 		}
 
@@ -212,7 +218,17 @@ func (s *service) WaitForVersionChange(ctx context.Context, key, ver string) err
 				tmr.Stop()
 			}
 		case <-expired:
-			// the record is expired, live() will remove it and notify other waiters
+			// the expiration moment has come: withdraw the registration and go around, live() removes
+			// the expired record and notifies other waiters (a record which is still alive is waited again)
+			s.lock.Lock()
+			if ws1, ok := s.verChange[key]; ok && ws.done == ws1.done {
+				ws.waiters--
+				if ws.waiters == 0 {
+					close(ws.done)
+					delete(s.verChange, key)
+				}
+			}
+			s.lock.Unlock()
 		}
 	}
 }
